@@ -1555,3 +1555,408 @@ Proof.
         by (symmetry; apply andb_true_iff; split; [apply Z.leb_le|apply Z.ltb_lt]; lia).
       reflexivity.
 Qed.
+
+(* ---------------------------------------------------------------- the full scan of _fsm_blk_allocate_aligned_lw
+   What the page-aligned allocator returns, first attempt and full scan alike: the page-aligned start OF A FREE RUN OF THE
+   INDEX THAT HOLDS THE REQUEST from that start on (for the scan: the one with the lowest offset); and it gives up only
+   when no run of the index holds the request. *)
+Lemma lookup_bounds_ub : forall k t lb0 lb ub, lookup_bounds k t lb0 = (lb, ub) ->
+  (ub = None -> forall x, In x t -> klt x k) /\ (forall u, ub = Some u -> u = k \/ klt k u).
+Proof.
+  induction t as [|y r IH]; intros lb0 lb ub H; simpl in H.
+  - injection H as <- <-. split; [intros _ x []|intros u Hu; discriminate Hu].
+  - destruct (cmp_key k y <? 0) eqn:E1.
+    + injection H as <- <-. split; [intros Hn; discriminate Hn|]. intros u Hu. injection Hu as <-.
+      right. apply cmp_key_lt. exact E1.
+    + destruct (cmp_key k y =? 0) eqn:E2.
+      * injection H as <- <-. split; [intros Hn; discriminate Hn|]. intros u Hu. injection Hu as <-.
+        left. symmetry. apply cmp_key_eq. exact E2.
+      * apply IH in H. destruct H as [Hn Hs]. split; [|exact Hs].
+        intros Hu x [<-|Hx]; [apply cmp_key_gt; assumption|apply Hn; assumption].
+Qed.
+
+Lemma find_matching_none : forall s off len, 0 < len -> bkey_ok off len = true -> find_matching s off len = None ->
+  forall x, In x (tree s) -> klt x (len, off).
+Proof.
+  intros s off len Hlen Hok. unfold find_matching. rewrite Hok. simpl negb. cbv iota.
+  destruct (lookup_bounds (len, off) (tree s) None) as [lb ub] eqn:E.
+  apply lookup_bounds_ub in E. destruct E as [Hn Hs].
+  destruct ub as [u|]; [|intros _; apply Hn; reflexivity].
+  assert (Hu : len <= fst u).
+  { destruct u as [ul uo]. destruct (Hs _ eq_refl) as [H|H]; [injection H as -> ->; simpl; lia|]. unfold klt in H. simpl in H |- *. lia. }
+  destruct lb as [l|]; simpl;
+    repeat match goal with |- context [if ?c then _ else _] => let E := fresh "E" in destruct c eqn:E end;
+    intros H; try discriminate H;
+    rewrite ?Z.eqb_neq, ?Z.gtb_ltb, ?Z.ltb_ge in *. all: try lia.
+  all: destruct len; try lia; discriminate.
+Qed.
+
+Lemma al_scan_min : forall L mx ab t acc,
+  let r := fold_left (al_scan_step L mx ab) t acc in
+  fst r <= fst acc /\
+  (forall klen koff, In (klen, koff) t -> al_fits koff klen (IW_ROUNDUP koff ab) L mx = true -> fst r <= koff).
+Proof.
+  intros L mx ab t. induction t as [|[klen koff] t IH]; intros acc; simpl.
+  - split; [lia|intros ? ? []].
+  - specialize (IH (al_scan_step L mx ab acc (klen, koff))). cbv zeta in IH. destruct IH as [I1 I2].
+    assert (S1 : fst (al_scan_step L mx ab acc (klen, koff)) <= fst acc /\
+                 (al_fits koff klen (IW_ROUNDUP koff ab) L mx = true -> fst (al_scan_step L mx ab acc (klen, koff)) <= koff)).
+    { unfold al_scan_step. destruct acc as [akoff aklen]. simpl.
+      destruct (koff <? akoff) eqn:E1.
+      - apply Z.ltb_lt in E1. destruct (al_fits koff klen (IW_ROUNDUP koff ab) L mx); simpl; split; try lia; intros H; discriminate H.
+      - apply Z.ltb_ge in E1. simpl. split; lia. }
+    destruct S1 as [S1 S2]. split; [lia|].
+    intros kl ko [Hx|Hx] Hf; [injection Hx as <- <-; specialize (S2 Hf); lia|apply (I2 kl ko Hx Hf)].
+Qed.
+
+Theorem blk_allocate_aligned_choice : forall s L mx, Inv s -> WF s -> 0 < L ->
+  let ab := shr (aunit s) (bpow s) in
+  let '(rc, s', off, olen) := blk_allocate_aligned s L mx in
+  (rc = IWFS_ERROR_NO_FREE_SPACE ->
+     forall klen koff, In (klen, koff) (tree s) -> al_fits koff klen (IW_ROUNDUP koff ab) L mx = false) /\
+  (rc = 0 -> exists aklen akoff, In (aklen, akoff) (tree s) /\
+     al_fits akoff aklen (IW_ROUNDUP akoff ab) L mx = true /\ off = IW_ROUNDUP akoff ab).
+Proof.
+  intros s L mx Hi Hwf Hlen. cbv zeta. unfold blk_allocate_aligned.
+  destruct (aunit_blk_pow2 s Hwf) as (k & Hab & Hk). rewrite Hab.
+  assert (Hp : 0 < 2 ^ k) by (apply Z.pow_pos_nonneg; lia).
+  assert (Hp32 : 2 ^ k < 2 ^ 32) by (apply Z.pow_lt_mono_r; lia).
+  assert (HB : FSM_BKEY_MAX = 2 ^ 32 - 1) by reflexivity.
+  pose proof (inv_u32 s Hi) as Hu32.
+  (* a run of the index: offsets below 2^32, aligned start not before the run *)
+  assert (Hrun : forall klen koff, In (klen, koff) (tree s) ->
+            0 <= koff /\ 0 < klen /\ koff + klen <= nbits s /\ koff <= IW_ROUNDUP koff (2 ^ k)).
+  { intros klen koff Hin. apply (inv_runs s Hi) in Hin. destruct Hin as (R1 & R2 & R3 & _). rewrite (inv_len s Hi) in R3.
+    destruct (roundup_pow2_props koff k ltac:(lia) R1 ltac:(change (2 ^ 64) with (2 ^ 32 * 2 ^ 32); nia)) as [Hr _]. lia. }
+  set (nn := match find_matching s 0 (L + 2 ^ k) with Some k0 => Some k0 | None => find_matching s 0 L end).
+  assert (Hnn : forall x, nn = Some x -> In x (tree s)).
+  { intros x Hx. unfold nn in Hx. destruct (find_matching s 0 (L + 2 ^ k)) eqn:E1.
+    - injection Hx as <-. apply (find_matching_spec _ _ _ _ E1).
+    - apply (find_matching_spec _ _ _ _ Hx). }
+  assert (Hnone : nn = None -> forall klen koff, In (klen, koff) (tree s) -> klen < L).
+  { intros Hx klen koff Hin. unfold nn in Hx. destruct (find_matching s 0 (L + 2 ^ k)); [discriminate Hx|].
+    destruct (Hrun _ _ Hin) as (R1 & R2 & R3 & _).
+    destruct (bkey_ok 0 L) eqn:Eok.
+    - destruct (find_matching_none s 0 L Hlen Eok Hx _ Hin) as [H|[_ H]]; simpl in H; lia.
+    - unfold bkey_ok in Eok. apply andb_false_iff in Eok. destruct Eok as [Eok|Eok]; apply Z.leb_gt in Eok; lia. }
+  destruct nn as [[aklen akoff]|].
+  2:{ split; [|intros H; discriminate H]. intros _ klen koff Hin. specialize (Hnone eq_refl _ _ Hin).
+      destruct (Hrun _ _ Hin) as (_ & _ & _ & R4). unfold al_fits.
+      apply andb_false_iff. right. rewrite Z.geb_leb. apply Z.leb_gt. lia. }
+  specialize (Hnn _ eq_refl). clear Hnone.
+  destruct (al_fits akoff aklen (IW_ROUNDUP akoff (2 ^ k)) L mx) eqn:Efit.
+  - pose proof (al_take_spec s akoff aklen L k mx Hi Hk Hlen Hnn Efit) as H.
+    assert (Hoff : let '(_, _, off, _) := al_take s akoff aklen L (2 ^ k) in off = IW_ROUNDUP akoff (2 ^ k)).
+    { unfold al_take. destruct (set_bit_status _ _ _ _ _ _). reflexivity. }
+    destruct (al_take s akoff aklen L (2 ^ k)) as [[[rc s'] off] olen]. destruct H as (-> & _).
+    split; [intros H; discriminate H|]. intros _. exists aklen, akoff. split; [exact Hnn|]. split; [exact Efit|exact Hoff].
+  - pose proof (al_scan_inv s L mx (2 ^ k) (tree s) (U64MAX, 0) (fun x H => H) (or_introl eq_refl)) as Hscan.
+    pose proof (al_scan_min L mx (2 ^ k) (tree s) (U64MAX, 0)) as Hmin.
+    cbv zeta in Hscan, Hmin.
+    destruct (fold_left (al_scan_step L mx (2 ^ k)) (tree s) (U64MAX, 0)) as [akoff2 aklen2]. simpl in Hmin.
+    destruct (akoff2 =? U64MAX) eqn:Eu.
+    + apply Z.eqb_eq in Eu. split; [|intros H; discriminate H]. intros _ klen koff Hin.
+      destruct (al_fits koff klen (IW_ROUNDUP koff (2 ^ k)) L mx) eqn:Ef; [|reflexivity].
+      destruct Hmin as [_ Hmin]. specialize (Hmin _ _ Hin Ef). destruct (Hrun _ _ Hin) as (R1 & R2 & R3 & _).
+      exfalso. rewrite Eu in Hmin. unfold U64MAX in Hmin. change (2 ^ 64) with (2 ^ 32 * 2 ^ 32) in Hmin. nia.
+    + apply Z.eqb_neq in Eu. destruct Hscan as [Hs|[Hs1 Hs2]]; [injection Hs as Hs _; congruence|].
+      simpl in Hs1, Hs2.
+      pose proof (al_take_spec s akoff2 aklen2 L k mx Hi Hk Hlen Hs1 Hs2) as H.
+      assert (Hoff : let '(_, _, off, _) := al_take s akoff2 aklen2 L (2 ^ k) in off = IW_ROUNDUP akoff2 (2 ^ k)).
+      { unfold al_take. destruct (set_bit_status _ _ _ _ _ _). reflexivity. }
+      destruct (al_take s akoff2 aklen2 L (2 ^ k)) as [[[rc s'] off] olen]. destruct H as (-> & _).
+      split; [intros H; discriminate H|]. intros _. exists aklen2, akoff2. split; [exact Hs1|]. split; [exact Hs2|exact Hoff].
+Qed.
+
+(* the statement is about something: a reachable state in which the first attempt is abandoned and the scan visits a
+   longer, lower, rejected run after the one it keeps.  Free runs (blocks): B = [194,258) best fit, misaligned;
+   C = [512,582) aligned; D = [321,421) longer than C, lower offset, does not hold 64 blocks from block 384 on.
+   One page (64 blocks) goes to block 512. *)
+Definition scan_witness_ops : list op :=
+  [OAlloc 3968 128 11 false; OAlloc 2088960 8192 11 false; OFree 12416 4096; OFree 20544 6400; OFree 32768 4480].
+Definition scan_witness_state : fsm := run (reopen (fresh v_fixed false) false false) scan_witness_ops.
+Lemma scan_witness : Good scan_witness_state /\ tree scan_witness_state = [(64, 194); (70, 512); (100, 321)] /\
+  (let '(rc, _, off, olen) := blk_allocate_aligned scan_witness_state 64 U64MAX in (rc, off, olen)) = (0, 512, 64).
+Proof.
+  split; [|split; vm_compute; reflexivity].
+  apply run_good; [exact fresh_reopened_good|]. apply ok_runb_sound. vm_compute. reflexivity.
+Qed.
+
+(* ---------------------------------------------------------------- IWFSM_SOLID_ALLOCATED_SPACE
+   Block size and allocation unit are never changed by any path of the allocator (no invariant needed), and the
+   epilogue of _fsm_blk_allocate_lw brings the file to offset + RETURNED length: whatever the allocation went through
+   (over-allocation, full scan of the page-aligned path, any number of bitmap relocations), a region handed out as
+   solid space lies inside the file. *)
+Definition geo (s s' : fsm) : Prop := bpow s' = bpow s /\ aunit s' = aunit s.
+Lemma geo_refl : forall s, geo s s.
+Proof. intros s. split; reflexivity. Qed.
+Lemma geo_trans : forall a b c, geo a b -> geo b c -> geo a c.
+Proof. unfold geo. intros a b c [H1 H2] [H3 H4]. split; congruence. Qed.
+
+Lemma geo_put_fbk : forall s o n, geo s (put_fbk s o n).
+Proof.
+  intros s o n. unfold put_fbk. destruct (negb (bkey_ok o n)); [apply geo_refl|].
+  destruct (tree_insert (n, o) (tree s)) as [t' ins]. destruct ins; simpl negb; cbv iota; [|apply geo_refl].
+  destruct (o + n >=? lfbkoff s + lfbklen s); split; reflexivity.
+Qed.
+Lemma geo_del_fbk2 : forall s k, geo s (del_fbk2 s k).
+Proof.
+  intros s k. unfold del_fbk2. destruct (tree_remove k (tree s)) as [t' f].
+  destruct (snd k =? lfbkoff s); split; reflexivity.
+Qed.
+Lemma geo_del_fbk : forall s o n, geo s (del_fbk s o n).
+Proof.
+  intros s o n. unfold del_fbk. destruct (negb (bkey_ok o n)); [apply geo_refl|].
+  destruct (tree_remove (n, o) (tree s)) as [t' f]. destruct f; [apply geo_del_fbk2|apply geo_refl].
+Qed.
+Lemma geo_set_bit_status : forall s off len v dry chk, geo s (snd (set_bit_status s off len v dry chk)).
+Proof.
+  intros s off len v dry chk. unfold set_bit_status. destruct (nbits s <? off + len); [apply geo_refl|].
+  destruct dry; split; reflexivity.
+Qed.
+Lemma geo_ensure_size : forall s z, geo s (ensure_size s z).
+Proof. intros s z. unfold ensure_size. destruct (fsize s >=? z); split; reflexivity. Qed.
+Lemma geo_stats : forall s n, geo s (stats_update s n).
+Proof. intros s n. unfold stats_update. destruct (crznum s >? FSM_MAX_STATS_COUNT); split; reflexivity. Qed.
+
+Lemma geo_fold_put : forall R a, geo a (fold_left (fun a r => put_fbk a (fst r) (snd r)) R a).
+Proof.
+  induction R as [|r R IH]; intros a; simpl; [apply geo_refl|].
+  eapply geo_trans; [apply geo_put_fbk|apply IH].
+Qed.
+Lemma geo_load_fsm : forall s, geo s (load_fsm s).
+Proof. intros s. unfold load_fsm. eapply geo_trans; [|apply geo_fold_put]. split; reflexivity. Qed.
+
+Lemma geo_blk_deallocate : forall s a m, geo s (snd (blk_deallocate s a m)).
+Proof.
+  intros s a m. unfold blk_deallocate.
+  destruct (negb ((if fx_strict (vr s) && strict s then fst (set_bit_status s a m false true true) else 0) =? 0));
+    [apply geo_refl|].
+  pose proof (geo_set_bit_status s a m false false (strict s)) as H1.
+  destruct (set_bit_status s a m false false (strict s)) as [rc s1]. simpl in H1.
+  destruct (negb (rc =? 0)); [exact H1|].
+  set (L := match find_prev_set_bit (bm s1) a 0 with
+            | Some l => if a >? l + 1 then (del_fbk s1 (l + 1) (a - (l + 1)), l + 1, m + (a - (l + 1))) else (s1, a, m)
+            | None => if a >? 0 then (del_fbk s1 0 a, 0, m + a) else (s1, a, m) end).
+  assert (HL : geo s1 (fst (fst L))).
+  { unfold L. destruct (find_prev_set_bit (bm s1) a 0) as [l|].
+    - destruct (a >? l + 1); simpl; [apply geo_del_fbk|apply geo_refl].
+    - destruct (a >? 0); simpl; [apply geo_del_fbk|apply geo_refl]. }
+  destruct L as [[s2 koff] klen]. simpl in HL.
+  set (R := match dealloc_right s1 (lfbkoff s) (a + m) with
+            | Some r => if r >? a + m then (del_fbk s2 (a + m) (r - (a + m)), klen + (r - (a + m))) else (s2, klen)
+            | None => (s2, klen) end).
+  assert (HR : geo s2 (fst R)).
+  { unfold R. destruct (dealloc_right s1 (lfbkoff s) (a + m)) as [r|]; [|apply geo_refl].
+    destruct (r >? a + m); simpl; [apply geo_del_fbk|apply geo_refl]. }
+  destruct R as [s3 klen']. simpl in HR. simpl.
+  eapply geo_trans; [exact H1|]. eapply geo_trans; [exact HL|]. eapply geo_trans; [exact HR|]. apply geo_put_fbk.
+Qed.
+
+Lemma geo_al_take : forall s akoff aklen length_blk aunit_blk,
+  geo s (state_of (al_take s akoff aklen length_blk aunit_blk)).
+Proof.
+  intros s akoff aklen length_blk au. unfold al_take.
+  set (noff := IW_ROUNDUP akoff au).
+  set (s1 := del_fbk s akoff aklen).
+  set (s2 := if noff >? akoff then put_fbk s1 akoff (noff - akoff) else s1).
+  set (s3 := if aklen - (noff - akoff) >? length_blk
+             then put_fbk s2 (noff + length_blk) (aklen - (noff - akoff) - length_blk) else s2).
+  assert (H1 : geo s s1) by apply geo_del_fbk.
+  assert (H2 : geo s1 s2) by (unfold s2; destruct (noff >? akoff); [apply geo_put_fbk|apply geo_refl]).
+  assert (H3 : geo s2 s3) by (unfold s3; destruct (aklen - (noff - akoff) >? length_blk); [apply geo_put_fbk|apply geo_refl]).
+  pose proof (geo_set_bit_status s3 noff length_blk true false (strict s)) as H4.
+  destruct (set_bit_status s3 noff length_blk true false (strict s)) as [rc s4]. simpl in H4. simpl.
+  eapply geo_trans; [exact H1|]. eapply geo_trans; [exact H2|]. eapply geo_trans; [exact H3|exact H4].
+Qed.
+
+Lemma geo_blk_allocate_aligned : forall s length_blk mx, geo s (state_of (blk_allocate_aligned s length_blk mx)).
+Proof.
+  intros s length_blk mx. unfold blk_allocate_aligned.
+  destruct (match find_matching s 0 (length_blk + shr (aunit s) (bpow s)) with
+            | Some k => Some k | None => find_matching s 0 length_blk end) as [[aklen akoff]|]; [|apply geo_refl].
+  destruct (al_fits akoff aklen (IW_ROUNDUP akoff (shr (aunit s) (bpow s))) length_blk mx); [apply geo_al_take|].
+  destruct (fold_left (al_scan_step length_blk mx (shr (aunit s) (bpow s))) (tree s) (U64MAX, 0)) as [akoff2 aklen2].
+  destruct (akoff2 =? U64MAX); [apply geo_refl|apply geo_al_take].
+Qed.
+
+Lemma geo_init_lw : forall s nbmoff nbmlen, geo s (snd (init_lw s nbmoff nbmlen)).
+Proof.
+  intros s nbmoff nbmlen. unfold init_lw.
+  destruct (negb (nbmlen mod pow2 (bpow s) =? 0) || negb (nbmoff mod pow2 (bpow s) =? 0) || negb (nbmoff mod aunit s =? 0));
+    [apply geo_refl|].
+  destruct (nbmlen <? bmlen s); [apply geo_refl|].
+  destruct (nbmlen * 8 <? shr (nbmoff + nbmlen) (bpow s) + 1); [apply geo_refl|].
+  destruct (negb (bmlen s =? 0) && negb (IW_RANGES_OVERLAP (bmoff s) (bmoff s + bmlen s) nbmoff (nbmoff + nbmlen) =? 0));
+    [apply geo_ensure_size|].
+  set (nbm := if negb (bmlen s =? 0) then bm s ++ repeat false (Z.to_nat (8 * (nbmlen - bmlen s)))
+              else repeat false (Z.to_nat (8 * nbmlen))).
+  set (s1 := set_bmloc (set_bm (ensure_size s (nbmoff + nbmlen)) nbm) nbmoff nbmlen).
+  assert (G1 : geo s s1) by (eapply geo_trans; [apply (geo_ensure_size s (nbmoff + nbmlen))|split; reflexivity]).
+  assert (GR : geo s (load_fsm (set_bmloc (set_bm s1 (bm s)) (bmoff s) (bmlen s)))).
+  { eapply geo_trans; [|apply geo_load_fsm]. eapply geo_trans; [exact G1|split; reflexivity]. }
+  pose proof (geo_set_bit_status s1 (shr nbmoff (bpow s)) (shr nbmlen (bpow s)) true false false) as H2.
+  destruct (set_bit_status s1 (shr nbmoff (bpow s)) (shr nbmlen (bpow s)) true false false) as [rc s2]. simpl in H2.
+  destruct (negb (rc =? 0)); [exact GR|].
+  set (P := if bmlen s =? 0 then set_bit_status s2 0 (shr (hdrlen s) (bpow s)) true false false else (0, s2)).
+  assert (H3 : geo s2 (snd P)).
+  { unfold P. destruct (bmlen s =? 0); [apply geo_set_bit_status|apply geo_refl]. }
+  destruct P as [rc3 s3]. simpl in H3.
+  destruct (negb (rc3 =? 0)); [exact GR|].
+  assert (G4 : geo s (write_meta (load_fsm s3))).
+  { eapply geo_trans; [exact G1|]. eapply geo_trans; [exact H2|]. eapply geo_trans; [exact H3|].
+    eapply geo_trans; [apply geo_load_fsm|split; reflexivity]. }
+  destruct (negb (bmlen s =? 0)); [|exact G4].
+  eapply geo_trans; [exact G4|apply geo_blk_deallocate].
+Qed.
+
+Lemma geo_resize : forall s size, geo s (snd (resize_fsm_bitmap s size)).
+Proof.
+  intros s size. unfold resize_fsm_bitmap. destruct (bmlen s >=? size); [apply geo_refl|].
+  pose proof (geo_blk_allocate_aligned s (shr (IW_ROUNDUP size (aunit s)) (bpow s)) U64MAX) as H1.
+  destruct (blk_allocate_aligned s (shr (IW_ROUNDUP size (aunit s)) (bpow s)) U64MAX) as [[[rc s1] off] sp].
+  simpl in H1.
+  destruct (if rc =? 0 then (shl off (bpow s), shl sp (bpow s))
+            else if rc =? IWFS_ERROR_NO_FREE_SPACE
+                 then (IW_ROUNDUP (bmlen s * pow2 (bpow s) * 8) (aunit s), IW_ROUNDUP size (aunit s))
+                 else (0, IW_ROUNDUP size (aunit s))) as [nbmoff nbmlen'].
+  eapply geo_trans; [exact H1|apply geo_init_lw].
+Qed.
+
+Lemma wf_geo : forall s s', WF s -> geo s s' -> WF s'.
+Proof. intros s s' [Hb Ha] [E1 E2]. split; rewrite ?E1, ?E2; assumption. Qed.
+
+(* _fsm_ensure_size_lw really reaches the size asked for (page round-up never falls short) *)
+Lemma ensure_size_ge : forall s z, WF s -> 0 <= z -> z + aunit s < 2 ^ 64 -> z <= fsize (ensure_size s z).
+Proof.
+  intros s z [Hb (j & Hj & Hr)] Hz Hlt. unfold ensure_size. destruct (fsize s >=? z) eqn:E.
+  - rewrite Z.geb_leb in E. apply Z.leb_le in E. exact E.
+  - simpl. rewrite Hj in *. destruct (roundup_pow2_props z j ltac:(lia) Hz Hlt) as [H _]. lia.
+Qed.
+
+Definition backed (s' : fsm) (off olen : Z) : Prop := shl off (bpow s') + shl olen (bpow s') <= fsize s'.
+Definition nowrap (s : fsm) (off olen : Z) : Prop :=
+  0 <= shl off (bpow s) + shl olen (bpow s) /\ shl off (bpow s) + shl olen (bpow s) + aunit s < 2 ^ 64.
+
+Lemma solid_backed : forall s off olen, WF s -> nowrap s off olen -> backed (solid s off olen) off olen.
+Proof.
+  intros s off olen Hwf [H0 H1]. unfold backed, solid.
+  destruct (geo_ensure_size s (shl off (bpow s) + shl olen (bpow s))) as [E _]. rewrite E.
+  apply ensure_size_ge; assumption.
+Qed.
+
+Lemma na_found_solid : forall fuel s length_blk offset_blk opts ovr nlength noff, WF s ->
+  has opts IWFSM_SOLID_ALLOCATED_SPACE = true ->
+  find_matching s offset_blk length_blk = Some (nlength, noff) ->
+  let '(rc, s', off, olen) := blk_allocate_na fuel s length_blk offset_blk opts ovr in
+  geo s s' /\ (rc = 0 -> nowrap s off olen -> backed s' off olen).
+Proof.
+  intros fuel s length_blk offset_blk opts ovr nlength noff Hwf Hso Efm.
+  rewrite blk_allocate_na_unfold, Efm. cbv zeta.
+  set (s1 := del_fbk2 s (nlength, noff)).
+  set (P := if nlength >? length_blk then
+              if negb (has opts IWFSM_ALLOC_NO_OVERALLOCATE) && negb (crznum s =? 0) then
+                (if ovr then (s1, nlength) else (put_fbk s1 (noff + length_blk) (nlength - length_blk), length_blk))
+              else (put_fbk s1 (noff + length_blk) (nlength - length_blk), length_blk)
+            else (s1, length_blk)).
+  assert (G2 : geo s (fst P)).
+  { eapply geo_trans; [apply (geo_del_fbk2 s (nlength, noff))|]. unfold P. fold s1.
+    destruct (nlength >? length_blk); [|apply geo_refl].
+    destruct (negb (has opts IWFSM_ALLOC_NO_OVERALLOCATE) && negb (crznum s =? 0)); [destruct ovr|];
+      simpl; first [apply geo_refl|apply geo_put_fbk]. }
+  destruct P as [s2 olen]. simpl in G2.
+  pose proof (geo_set_bit_status s2 noff olen true false (strict s)) as G3.
+  destruct (set_bit_status s2 noff olen true false (strict s)) as [rc s3]. simpl in G3.
+  rewrite Hso.
+  destruct (rc =? 0) eqn:Erc; simpl andb; cbv iota.
+  - set (s4 := if negb (has opts IWFSM_ALLOC_NO_STATS) then stats_update s3 length_blk else s3).
+    assert (G4 : geo s s4).
+    { eapply geo_trans; [exact G2|]. eapply geo_trans; [exact G3|]. unfold s4.
+      destruct (negb (has opts IWFSM_ALLOC_NO_STATS)); [apply geo_stats|apply geo_refl]. }
+    split; [eapply geo_trans; [exact G4|apply geo_ensure_size]|]. intros _ Hnw.
+    apply solid_backed; [exact (wf_geo _ _ Hwf G4)|]. destruct G4 as [E1 E2]. unfold nowrap. rewrite E1, E2. exact Hnw.
+  - split; [eapply geo_trans; [exact G2|exact G3]|]. intros H. apply Z.eqb_neq in Erc. contradiction.
+Qed.
+
+Lemma blk_allocate_na_solid : forall fuel s length_blk offset_blk opts ovr, WF s ->
+  has opts IWFSM_SOLID_ALLOCATED_SPACE = true ->
+  let '(rc, s', off, olen) := blk_allocate_na fuel s length_blk offset_blk opts ovr in
+  geo s s' /\ (rc = 0 -> nowrap s off olen -> backed s' off olen).
+Proof.
+  induction fuel as [|f IH]; intros s length_blk offset_blk opts ovr Hwf Hso;
+    destruct (find_matching s offset_blk length_blk) as [[nlength noff]|] eqn:Efm;
+    try (apply na_found_solid with (nlength := nlength) (noff := noff); assumption); rewrite blk_allocate_na_unfold, Efm;
+    (destruct (has opts IWFSM_ALLOC_NO_EXTEND); [cbv beta iota; split; [apply geo_refl|intros H; discriminate H]|]).
+  - cbv beta iota. split; [apply geo_refl|intros H; discriminate H].
+  - pose proof (geo_resize s (shl (bmlen s) 1)) as Hg.
+    destruct (resize_fsm_bitmap s (shl (bmlen s) 1)) as [rc s1]. simpl in Hg.
+    destruct (negb (rc =? 0)) eqn:Erc.
+    + cbv beta iota. split; [exact Hg|]. intros ->. discriminate Erc.
+    + specialize (IH s1 length_blk offset_blk opts ovr (wf_geo _ _ Hwf Hg) Hso).
+      destruct (blk_allocate_na f s1 length_blk offset_blk opts ovr) as [[[rc' s'] off] olen].
+      destruct IH as [G B]. split; [eapply geo_trans; eassumption|].
+      intros Hrc Hnw. apply B; [exact Hrc|]. destruct Hg as [E1 E2]. unfold nowrap. rewrite E1, E2. exact Hnw.
+Qed.
+
+Lemma blk_allocate_al_solid : forall fuel s length_blk opts, WF s ->
+  has opts IWFSM_SOLID_ALLOCATED_SPACE = true ->
+  let '(rc, s', off, olen) := blk_allocate_al fuel s length_blk opts in
+  geo s s' /\ (rc = 0 -> nowrap s off olen -> backed s' off olen).
+Proof.
+  induction fuel as [|f IH]; intros s length_blk opts Hwf Hso; rewrite blk_allocate_al_unfold;
+    pose proof (geo_blk_allocate_aligned s length_blk U64MAX) as G1;
+    destruct (blk_allocate_aligned s length_blk U64MAX) as [[[rc s1] off] olen]; simpl in G1;
+    (destruct (rc =? IWFS_ERROR_NO_FREE_SPACE) eqn:E1;
+     [destruct (has opts IWFSM_ALLOC_NO_EXTEND); [cbv beta iota; split; [exact G1|intros H; discriminate H]|]
+     |rewrite Hso; destruct (rc =? 0) eqn:E0; simpl andb; cbv beta iota;
+      [split; [eapply geo_trans; [exact G1|apply geo_ensure_size]|]; intros _ Hnw;
+       apply solid_backed; [exact (wf_geo _ _ Hwf G1)|]; destruct G1 as [X1 X2]; unfold nowrap; rewrite X1, X2; exact Hnw
+      |split; [exact G1|]; intros H; apply Z.eqb_neq in E0; contradiction]]).
+  - cbv beta iota. split; [exact G1|intros H; discriminate H].
+  - pose proof (geo_resize s1 (shl (bmlen s1) 1)) as Hg.
+    destruct (resize_fsm_bitmap s1 (shl (bmlen s1) 1)) as [rc2 s2]. simpl in Hg.
+    assert (G2 : geo s s2) by (eapply geo_trans; eassumption).
+    destruct (negb (rc2 =? 0)) eqn:Erc.
+    + cbv beta iota. split; [exact G2|]. intros ->. discriminate Erc.
+    + specialize (IH s2 length_blk opts (wf_geo _ _ Hwf G2) Hso).
+      destruct (blk_allocate_al f s2 length_blk opts) as [[[rc' s'] off'] olen'].
+      destruct IH as [G B]. split; [eapply geo_trans; eassumption|].
+      intros Hrc Hnw. apply B; [exact Hrc|]. destruct G2 as [X1 X2]. unfold nowrap. rewrite X1, X2. exact Hnw.
+Qed.
+
+(* _fsm_allocate with IWFSM_SOLID_ALLOCATED_SPACE, every flag combination, every state, bitmap growth included:
+   the region [a, a + l) - l is the RETURNED length - lies inside the file.  (The two hypotheses on a + l exclude the
+   64-bit wrap of the size computation; they follow from < 2^32 blocks of < 2^31 bytes.) *)
+Theorem allocate_solid_backed : forall s len addr opts ovr, WF s ->
+  has opts IWFSM_SOLID_ALLOCATED_SPACE = true ->
+  let '(rc, s', a, l) := allocate s len addr opts ovr in
+  rc = 0 -> 0 <= a + l -> a + l + aunit s < 2 ^ 64 -> a + l <= fsize s' /\ bpow s' = bpow s /\ aunit s' = aunit s.
+Proof.
+  intros s len addr opts ovr Hwf Hso. unfold allocate.
+  destruct (len <=? 0); [intros H; discriminate H|].
+  set (lb := shr (IW_ROUNDUP len (pow2 (bpow s))) (bpow s)).
+  assert (H : let '(rc, s', off, olen) := blk_allocate s lb (shr addr (bpow s)) opts ovr in
+              geo s s' /\ (rc = 0 -> nowrap s off olen -> backed s' off olen)).
+  { unfold blk_allocate. destruct (has opts IWFSM_ALLOC_PAGE_ALIGNED);
+      [apply blk_allocate_al_solid|apply blk_allocate_na_solid]; assumption. }
+  destruct (blk_allocate s lb (shr addr (bpow s)) opts ovr) as [[[rc s1] off] nlen].
+  destruct H as [[E1 E2] B]. destruct (rc =? 0) eqn:E0.
+  - intros _ H0 H1. apply Z.eqb_eq in E0. specialize (B E0 (conj H0 H1)). unfold backed in B. rewrite E1 in B.
+    split; [exact B|split; assumption].
+  - intros H. apply Z.eqb_neq in E0. contradiction.
+Qed.
+
+(* satisfiable, and the over-allocated case on a concrete history: five plain allocations of about one page on a new
+   64-byte-block file (the file stays at 8192 bytes), the fourth released, 60 blocks of solid space asked from the hole
+   with the over-allocation decision taken: 64 blocks are returned and the file covers all of them *)
+Definition solid_witness_state : fsm :=
+  run (fresh v_fixed false) [OAlloc 3840 0 0 false; OAlloc 4096 0 0 false; OAlloc 4352 0 0 false; OAlloc 4096 0 0 false;
+                             OAlloc 4096 0 0 false; OFree 16640 4096].
+Lemma solid_witness : WF solid_witness_state /\ fsize solid_witness_state = 8192 /\
+  (let '(rc, s', a, l) := allocate solid_witness_state 3840 0 IWFSM_SOLID_ALLOCATED_SPACE true in (rc, a, l, fsize s'))
+  = (0, 16640, 4096, 24576).
+Proof.
+  split; [|split; vm_compute; reflexivity].
+  assert (E : bpow solid_witness_state = 6) by (vm_compute; reflexivity).
+  split; [rewrite E; lia|]. exists 12. split; [vm_compute; reflexivity|]. rewrite E. lia.
+Qed.
